@@ -382,8 +382,18 @@ def _check_case(case, res):
                         "detail": "markers in the debug build do not resolve to exactly the tracked calls of the program: missing %s, unexpected %s" % (missing[:3], extra[:3])}
         else:
             src_nows = "".join(text.split())
+            scanned = S.scan_tracked_calls(text)
+            table = set(tuple(x) for x in res.get("tracked_table", []))
+            if scanned != table:
+                return {"status": "violation", "kind": "markers",
+                        "detail": "debug_symbols() does not list exactly the tracked calls of the source text: missing %s, unexpected %s" % (
+                            sorted(scanned - table)[:3], sorted(table - scanned)[:3])}
+            head = {"Assert": "assert!(", "Panic": "panic!(", "Jet": "jet::", "Unwrap": "unwrap(", "UnwrapLeft": "unwrap_left::<",
+                    "UnwrapRight": "unwrap_right::<"}
             for kind, t in res["dag_markers"]:
                 probe = t if kind != "Debug" else "dbg!(" + t + ")"
+                if not t or not t.startswith(head.get(kind, "")) or (kind != "Debug" and not t.endswith(")")):
+                    return {"status": "violation", "kind": "markers", "detail": "marker text %r is not the text of a %s call" % (t, kind)}
                 if probe not in src_nows:
                     return {"status": "violation", "kind": "markers", "detail": "marker text %r (%s) is not a call of the source file" % (t, kind)}
     if case.prog is None:
